@@ -414,6 +414,10 @@ SAMI_SPELL = [
     ("<b>", "</b>", ("bold",)),
     ("<u>", "</u>", ("underline",)),
     ('<span style="font-style:italic;font-weight:normal;">', "</span>", ("italics",)),
+    # the usual way to write a declaration list: a blank after every ";" and ":"
+    ('<span style="font-weight: bold; font-style: italic">', "</span>", ("bold", "italics")),
+    ('<span style="color: red; font-style: italic;">', "</span>", ("italics",)),
+    ('<span style=" text-decoration : underline ; font-weight : bold ">', "</span>", ("underline", "bold")),
 ]
 WORDS = ["ab", "cd", "ef"]
 
